@@ -13,6 +13,7 @@ import (
 	"os"
 	"path/filepath"
 	"reflect"
+	"runtime"
 	"strings"
 	"sync"
 	"sync/atomic"
@@ -345,8 +346,13 @@ func c20Run(r *vlib.Run, c *c20Case, dir string) {
 	select {
 	case <-done:
 	case <-time.After(40 * time.Second):
-		// release everything so nothing leaks, then report
-		r.Violation(c.ID, "serve-hung", "Serve had not returned 40 s after the stimulus", det())
+		// hung, or only starved of CPU on an overloaded machine?
+		if why := c20Starved(done); why != "" {
+			r.Inconclusive(c.ID, "Serve had not returned 40 s after the stimulus, but "+why)
+		} else {
+			r.Violation(c.ID, "serve-hung", "Serve had not returned 40 s after the stimulus (and every goroutine of the server is parked, in two dumps 10 s apart)", det())
+		}
+		// release everything so nothing leaks
 		for _, st := range sts {
 			func() { defer func() { _ = recover() }(); close(st.stopGate) }()
 		}
@@ -647,4 +653,44 @@ func c20TerminateFunc(r *vlib.Run, srv *Server) func() bool {
 	}
 	r.Count("terminate_flag_not_found", 1)
 	return nil
+}
+
+// c20Starved distinguishes a hung Serve from one that is merely not being
+// scheduled: it returns a reason when Serve returns within ten more seconds or
+// when, in either of two goroutine dumps ten seconds apart, a goroutine with
+// CoreRAD's (non-test) code on its stack is runnable or running.  A genuine
+// hang has every such goroutine parked in both.
+func c20Starved(done <-chan struct{}) string {
+	busy := func() int {
+		buf := make([]byte, 4<<20)
+		buf = buf[:runtime.Stack(buf, true)]
+		n := 0
+		for _, g := range strings.Split(string(buf), "\n\n") {
+			if !strings.Contains(g, "corerad/internal/corerad.") && !strings.Contains(g, "corerad/internal/system.") {
+				continue
+			}
+			head := g
+			if i := strings.IndexByte(g, '\n'); i >= 0 {
+				head = g[:i]
+			}
+			if strings.Contains(head, "[running") || strings.Contains(head, "[runnable") || strings.Contains(head, "[syscall") {
+				// the goroutine taking the dump is this test's, inside package corerad too
+				if !strings.Contains(g, "c20Starved") {
+					n++
+				}
+			}
+		}
+		return n
+	}
+	b1 := busy()
+	select {
+	case <-done:
+		return "it returned within the next 10 s: the machine is overloaded"
+	case <-time.After(10 * time.Second):
+	}
+	b2 := busy()
+	if b1 > 0 || b2 > 0 {
+		return fmt.Sprintf("goroutines of the server are runnable (%d, then %d) rather than parked: starved of CPU, not hung", b1, b2)
+	}
+	return ""
 }
